@@ -4,6 +4,7 @@ from bounded import b_links as B
 from contracts import links as L
 
 P_UNITS = [PUnit("link-atoms-identify-one-atom", L.CONTRACTS, L.REG),
+           PUnit("relative-order-of-link-residues", [L.CHECK_ORDER], L.REG_ORD),
            LUnit("veto-before-effect", L.lemma_veto_before_effect)]
 
 
